@@ -331,8 +331,9 @@ class ExprGen:
     nested slices/Cat/Replicate).  `lowered=True` restricts slices to signals (the shape that reaches the
     printer after lower_complex_slices)."""
 
-    def __init__(self, rng, sigs, lowered=True, maxw=24, tame=False):
+    def __init__(self, rng, sigs, lowered=True, maxw=24, tame=False, neg_shift_ok=False):
         self.tame = tame
+        self.neg_shift_ok = neg_shift_ok   # a negative count raises ValueError in the real Evaluator
         self.rng = rng
         self.sigs = sigs
         self.lowered = lowered
@@ -446,7 +447,7 @@ class ExprGen:
             e = _Operator(r.choice(["~", "~", "-"]), [self.gen_wild(depth - 1)])
         elif k < 0.70:
             amt = r.choice([Constant(r.randint(0, 5)), self.small_unsigned(), self.small_unsigned(),
-                            r.choice(self.sigs) if r.random() < 0.15 else Constant(1)])
+                            r.choice(self.sigs) if (self.neg_shift_ok and r.random() < 0.15) else Constant(1)])
             e = _Operator(r.choice(["<<<", ">>>"]), [self.gen_wild(depth - 1), amt])
         elif k < 0.78:
             e = Mux(self.gen_wild(depth - 1), self.gen_wild(depth - 1), self.gen_wild(depth - 1))
